@@ -346,4 +346,29 @@ PROPS = {
         "level_note": "Trusted: the unwrapped rendering as the reference for content (it is "
                       "produced by the same renderer with an unreachable width).",
     },
+    "C12": {
+        "cases": {"quick": 800, "thorough": 40000},
+        "rule": "Per case one random definition (all shapes: wrappers, group_help, "
+                "with_group_help, hidden parts, aliases, adjacent groups, alternatives, nested "
+                "commands, custom help/version names, descr/header/footer) and, for every command "
+                "level reachable by a path of command names, the level's --help rendered "
+                "unwrapped and tokenised. Checked per level: visible items/commands listed with "
+                "first names, metavariable, help; hidden items, aliases, undeclared terms absent; "
+                "help/version flags; order of description/usage/header/lists/footer; item lists "
+                "unchanged when hide_usage/custom_usage are removed; for shown names a sentence "
+                "using exactly that spelling must be accepted. evaluations = help screens + "
+                "acceptance runs; distinct_nontrivial = distinct (level, vector) pairs.",
+        "assumptions": COMMON_ASSUMPTIONS + [
+            "Names, metavariables and help strings are unique per item, so matching is exact.",
+            "Members of adjacent groups without help text count as listed when they appear on "
+            "the group's own usage line.",
+        ],
+        "must_observe": ["help-screens", "items-checked", "commands-checked",
+                         "usage-wrapper-pairs", "shown-names-tried", "depth:1"],
+        "technique": "runtime monitoring: output-protocol monitor (help-screen tokenizer) checked "
+                     "against the definition's declared items + acceptance runs of shown names",
+        "level_text": "Held on the help screens observed.",
+        "level_note": "Trusted: the tokenizer's reading of the help layout (4-space term lines, "
+                      "two-space gap before help text).",
+    },
 }
